@@ -30,7 +30,7 @@ class C05(LBCheck):
           'non-trivial = a join or leave was delivered; distinct as C03')
   REQUIRED_CLASSES = ('heap', 'aperture', 'join-duplicate', 'leave-unknown', 'rejoin', 'notify-during-loading',
                       'rejoin-while-draining', 'removal', 'init-retry', 'saturation-probe', 'full-stack', 'tuple-endpoints', 'close-raises-on-leave', 'duplicates-in-initial-list',
-                      'named-endpoint', 'zk-backed', 'zk-backed:named-endpoint', 'zk-backed:restart', 'zk-backed:path-recreated', 'zk-backed:provider-shared-by-two-balancers', 'zk-backed:registrant-without-the-named-endpoint', 'look-alike-endpoints',
+                      'named-endpoint', 'zk-backed', 'zk-backed:named-endpoint', 'open-called-again', 'zk-backed:restart', 'zk-backed:path-recreated', 'zk-backed:provider-shared-by-two-balancers', 'zk-backed:registrant-without-the-named-endpoint', 'look-alike-endpoints',
                       'yielding-close', 'yielding-close:closed-inside-completion', 'yielding-close:root-leaves-in-window',
                       'yielding-close:idle-leaves-in-window', 'yielding-close:rejoin-in-window', 'thrift', 'mux')
   ASSUMPTIONS = ('eligible endpoints are read from the balancer\'s heap and idle set (observe_at: internal)',)
